@@ -7,6 +7,7 @@ import Anko.Model.EnvApi
 import Anko.Gen.EnvFlow
 import Anko.Props.EnvFlowTable
 import Anko.Props.Tie.EnvFlow
+import Anko.Props.Tie.Inventory
 
 namespace Anko.C12
 open Anko.EnvApi
@@ -453,5 +454,14 @@ Every leaf statement of every method of the environment API (env/env.go, envValu
 under, is the one written down in Props/EnvFlowTable next to Model/EnvApi. A lookup order changed, a binding created where only an
 update is allowed, a dotted name let through, a table of the wrong scope touched, a copy taken in pieces makes the tables differ. -/
 theorem environment_methods_are_the_modelled_ones : Gen.EnvFlow.leaves = Tables.envFlow := Tie.envFlow
+
+
+/-! ### Declaration inventory
+
+Nothing was added to the packages this property is anchored in: their top-level declarations (functions, methods, variables, constants, types with
+the fields of struct types), regenerated from /repo on this run, are the audited ones (Props/Tie/Inventory). A helper, a package-level table or a
+file added there - code no flow table can pin - breaks the tie by name and makes this property's check search for a failing input. -/
+/-- env/ -/
+theorem declarations_of_Env_are_the_audited_ones : Tie.ofPkg "env" Gen.Inventory.decls = Tie.ofPkg "env" Tables.inventory := Tie.inventoryEnv
 
 end Anko.C12
